@@ -1,5 +1,5 @@
 (* C05 - Rejected CTAP2 requests report exactly the status code their fault calls for. *)
-From Ctap Require Import Base Schema Wire Utf8 Typed Procs Inst Tables ProcTables Finite CborItem WireP SkipP TypedP EntriesP FramingP C11P ObRequestSide ObOpTables.
+From Ctap Require Import Base Schema Wire Utf8 Typed WellTyped Procs Inst Tables ProcTables Finite CborItem WireP SkipP TypedP EntriesP FramingP C11P SerP TotalP RoundTripP PrefixP ObRequestSide ObOpTables.
 Local Open Scope string_scope.
 Local Open Scope Z_scope.
 
@@ -83,6 +83,71 @@ Proof.
   intros fs acc rec_ H fd Hin Ho Hn. rewrite (idx_finish_missing fs acc fd Hin Ho Hn) in H. discriminate.
 Qed.
 
+(* a key that occurs twice is InvalidCbor-class (custom error), at the top level after ANY run of valid,
+   distinct parameters, whatever the second value is and whatever follows ... *)
+Theorem c05_duplicate_parameter : forall e k name s d fs entries dup n rest,
+  lookup e name = Some (DStruct true s d fs) ->
+  Forall (idx_entry_ok (dec e k) fs) entries ->
+  NoDup (map en_label entries) ->
+  In dup entries ->
+  blen entries < n < 4294967296 ->
+  dec e (S k) (TNamed name)
+      (put_head 5 n ++ List.concat (map enc_idx_entry entries) ++ put_head 0 (idx_key (en_fd dup)) ++ rest)%list
+  = Err SerdeDeCustom.
+Proof. exact dec_indexed_duplicate. Qed.
+
+(* ... and inside a nested text-keyed structure (a member's name or alias a second time) *)
+Theorem c05_duplicate_member : forall e k name s d fs tes dup key n rest,
+  lookup e name = Some (DStruct false s d fs) ->
+  Forall (txt_entry_ok (dec e k) fs) tes ->
+  NoDup (map en_label (known_entries tes)) ->
+  In dup (known_entries tes) ->
+  blen key < 4294967296 -> utf8_valid key = true -> find_txt_field key fs = Some (en_fd dup) ->
+  blen tes < n < 4294967296 ->
+  dec e (S k) (TNamed name)
+      (put_head 5 n ++ List.concat (map enc_txt_entry tes) ++ ser_text key ++ rest)%list
+  = Err SerdeDeCustom.
+Proof. exact dec_text_duplicate. Qed.
+
+(* THE DECODER'S VERDICT DEPENDS ONLY ON THE BYTES IT HAS READ: for every environment, type and input,
+   a successful read is the same read when more bytes follow, and a failure other than UnexpectedEnd is
+   the same failure when more bytes follow *)
+Theorem c05_verdict_prefix_stable : forall e k t i x,
+  (forall v r, dec e k t i = Ok (v, r) -> dec e k t (i ++ x)%list = Ok (v, (r ++ x)%list)) /\
+  (forall ce, dec e k t i = Err ce -> ce <> UnexpectedEnd -> dec e k t (i ++ x)%list = Err ce).
+Proof.
+  intros e k t i x. split.
+  - intros v r H. exact (dec_reads_only_its_value e k t i v r x H).
+  - intros ce H Hc. exact (dec_failure_is_final e k t i ce x H Hc).
+Qed.
+
+(* TRUNCATION AT EVERY BYTE OFFSET.  For every command that carries parameters, every well-typed
+   parameter value (any size, any subset of optional members) and every proper prefix of its encoding,
+   ctap2::Request::deserialize answers InvalidCbor (0x12): never MissingParameter, never a request *)
+Theorem c05_spec_declarations_wellformed : forallb (fun f => env_rt (spec_env f)) all_feats = true.
+Proof. vm_compute. reflexivity. Qed.
+Theorem c05_spec_request_types_decodable :
+  forallb (fun f => forallb (route_ok (spec_env f)) bytes256) all_feats = true.
+Proof. vm_compute. reflexivity. Qed.
+
+Theorem c05_truncation_is_invalid_cbor : forall f b variant t v enc p x,
+  In f all_feats -> 0 <= b < 256 -> spec_route b = RtDecode variant t ->
+  wt (spec_env f) type_fuel t v = true -> encode (spec_env f) t v = Some enc ->
+  enc = (p ++ x)%list -> x <> [] ->
+  request_deserialize spec_tables (spec_env f) (b :: p) = RErr 0x12.
+Proof.
+  intros f b variant t v enc p x Hf Hb Hr W H Hs Hx.
+  pose proof Hr as Hr'. rewrite <- (route_of_spec b Hb) in Hr'.
+  rewrite (request_decode_step spec_tables (spec_env f) b p variant t Hr').
+  pose proof (forallb_In (fun f => env_rt (spec_env f)) all_feats f c05_spec_declarations_wellformed Hf) as He.
+  pose proof (forallb_In (fun f => forallb (route_ok (spec_env f)) bytes256) all_feats f c05_spec_request_types_decodable Hf) as Hd.
+  cbv beta in He, Hd.
+  pose proof (route_ok_decodable (spec_env f) b variant t (forall_bytes (route_ok (spec_env f)) Hd b Hb) Hr) as Hdec.
+  rewrite encode_unfold in H.
+  unfold decode. rewrite (truncation_rejected (spec_env f) type_fuel t v enc p x He Hdec W H Hs Hx).
+  rewrite spec_status_of_cerr. reflexivity.
+Qed.
+
 Theorem c05_empty_message : forall e, request_deserialize spec_tables e [] = RErr 0x12.
 Proof. intros e. cbn [request_deserialize]. rewrite spec_status_of_cerr. reflexivity. Qed.
 
@@ -116,3 +181,9 @@ Eval vm_compute in "ASSUMPTIONS c05_empty_message". Print Assumptions c05_empty_
 Eval vm_compute in "ASSUMPTIONS c05_generated_error_tables". Print Assumptions c05_generated_error_tables.
 Eval vm_compute in "ASSUMPTIONS c05_generated_conforms". Print Assumptions c05_generated_conforms.
 Eval vm_compute in "ASSUMPTIONS c05_generated_route". Print Assumptions c05_generated_route.
+Eval vm_compute in "ASSUMPTIONS c05_duplicate_parameter". Print Assumptions c05_duplicate_parameter.
+Eval vm_compute in "ASSUMPTIONS c05_duplicate_member". Print Assumptions c05_duplicate_member.
+Eval vm_compute in "ASSUMPTIONS c05_verdict_prefix_stable". Print Assumptions c05_verdict_prefix_stable.
+Eval vm_compute in "ASSUMPTIONS c05_spec_declarations_wellformed". Print Assumptions c05_spec_declarations_wellformed.
+Eval vm_compute in "ASSUMPTIONS c05_spec_request_types_decodable". Print Assumptions c05_spec_request_types_decodable.
+Eval vm_compute in "ASSUMPTIONS c05_truncation_is_invalid_cbor". Print Assumptions c05_truncation_is_invalid_cbor.
